@@ -60,6 +60,8 @@ class Expect:
             if ty in self.styles:
                 self.styles[ty][s.attributes["w:styleId"]] = s.find_child_or_null("w:name").attributes.get("w:val")
         self.rels = {i: t for i, t, ty in pkg.rels}
+        self.refs = set()
+        self.convert = True
         self.levels = self._levels()
 
     def _levels(self):
@@ -105,7 +107,7 @@ class Expect:
         name = table.get(sid)
         if sid not in table:
             self.msgs.add("%s style with ID %s was referenced but not defined in the document" % (kind_word, sid))
-        if kind_letter in ("p", "r") and visited:
+        if kind_letter in ("p", "r") and visited and self.convert:
             el = {"kind": kind_letter, "style_id": sid, "style_name": name, "numbering": numbering}
             if not any(spec_matches(m, el) for m in self.sm):
                 self.msgs.add("Unrecognised %s style: %s (Style ID: %s)" % ("paragraph" if kind_letter == "p" else "run", name, sid))
@@ -173,6 +175,8 @@ class Expect:
                 self.walk(n.find_child_or_null("mc:Fallback").children)
             elif nm in CONTAINERS:
                 self.walk(n.children)
+            elif nm in ("w:footnoteReference", "w:endnoteReference"):
+                self.refs.add((nm[2:-9], n.attributes.get("w:id")))
             elif nm in IGNORED or nm in LEAVES:
                 pass
             else:
@@ -200,11 +204,14 @@ class Expect:
     def all(self, comments_rendered):
         self.pending = []
         self.walk(self.pkg.body)
-        for part in (self.pkg.footnotes, self.pkg.endnotes):
+        for ty, part in (("footnote", self.pkg.footnotes), ("endnote", self.pkg.endnotes)):
             self.pending = []
             for n in part or []:
                 if n.attributes.get("w:type") not in ("separator", "continuationSeparator"):
+                    # every note is READ (reader warnings); it is converted only when a reference to it was reached
+                    self.convert = (ty, n.attributes.get("w:id")) in self.refs
                     self.walk(n.children)
+        self.convert = True
         self.pending = []
         for c in self.pkg.comments or []:
             if comments_rendered:
